@@ -75,7 +75,10 @@ func calcPercentUsage(cpuRequest, memRequest, cpuCapacity, memCapacity resource.
 		return 0, 0, errors.New("cannot divide by zero in percent calculation")
 	}
 
-	cpuPercent := float64(cpuRequest.MilliValue()) / float64(cpuCapacity.MilliValue()) * 100
-	memPercent := float64(memRequest.MilliValue()) / float64(memCapacity.MilliValue()) * 100
+	// multiply before dividing: request/capacity*100 is one float rounding further away from
+	// the true value and can land just below a threshold that the utilisation equals exactly
+	// (e.g. 290m of 1000m gave 28.999999999999996 instead of 29)
+	cpuPercent := float64(cpuRequest.MilliValue()) * 100 / float64(cpuCapacity.MilliValue())
+	memPercent := float64(memRequest.MilliValue()) * 100 / float64(memCapacity.MilliValue())
 	return cpuPercent, memPercent, nil
 }
